@@ -82,14 +82,7 @@ def run_scenario(ctx, idx, text, cfg=(), timeout=60, keep=None):
     with open(p, "w") as f:
         f.write(text)
     rc, out, err = vlib.sh([drv, p] + BASE_CFG + list(cfg), timeout=timeout, env=vlib.sg_env())
-    recs = []
-    for line in out.splitlines():
-        line = line.strip()
-        if line.startswith("{"):
-            try:
-                recs.append(json.loads(line))
-            except ValueError:
-                recs.append({"e": "garbled", "raw": line[:200]})
+    recs = _parse(out)
     if not any(r.get("e") == "end" for r in recs):
         recs.append({"e": "end", "how": "hang" if rc == 124 else "crash", "rc": rc, "stderr": err[-400:]})
     if keep is None:
@@ -100,10 +93,66 @@ def run_scenario(ctx, idx, text, cfg=(), timeout=60, keep=None):
     return recs
 
 
-def run_many(ctx, jobs, timeout=60):
-    """jobs: list of (text, cfg). Returns the list of record lists."""
-    driver()
-    return vlib.parallel_map(lambda ij: run_scenario(ctx, ij[0], ij[1][0], ij[1][1], timeout), list(enumerate(jobs)))
+def _parse(out):
+    recs = []
+    for line in out.splitlines():
+        line = line.strip()
+        if line.startswith("{"):
+            try:
+                recs.append(json.loads(line))
+            except ValueError:
+                recs.append({"e": "garbled", "raw": line[:200]})
+    return recs
+
+
+_batch_no = [0]
+
+
+def run_many(ctx, jobs, timeout=60, chunk=None):
+    """jobs: list of (text, cfg). Runs them through the driver's batch mode (one forked child per scenario, several
+    batch processes in parallel). Returns the list of record lists, in order."""
+    drv = driver()
+    if not jobs:
+        return []
+    nproc = max(2, vlib.NCPU // 2)
+    chunk = chunk or max(1, min(400, (len(jobs) + nproc - 1) // nproc))
+    _batch_no[0] += 1
+    d = os.path.join(ctx.scratch, "b%d" % _batch_no[0])
+    os.makedirs(d, exist_ok=True)
+    chunks = [list(range(i, min(i + chunk, len(jobs)))) for i in range(0, len(jobs), chunk)]
+
+    def do_chunk(ci):
+        ids = chunks[ci]
+        lst = os.path.join(d, "list%d.txt" % ci)
+        with open(lst, "w") as f:
+            for i in ids:
+                p = os.path.join(d, "sc%d.txt" % i)
+                with open(p, "w") as g:
+                    g.write(jobs[i][0])
+                f.write(" ".join([p] + BASE_CFG + list(jobs[i][1])) + "\n")
+        rc, out, err = vlib.sh([drv, "--batch", lst, str(timeout)], timeout=timeout * len(ids) + 60, env=vlib.sg_env())
+        res = {}
+        cur = None
+        for r in _parse(out):
+            if r.get("e") == "begin":
+                cur = ids[r["idx"]]
+                res[cur] = []
+            elif cur is not None:
+                res[cur].append(r)
+        for i in ids:
+            recs = res.setdefault(i, [])
+            if not any(r.get("e") == "end" for r in recs):
+                recs.append({"e": "end", "how": "crash", "rc": rc, "stderr": err[-300:]})
+            try:
+                os.unlink(os.path.join(d, "sc%d.txt" % i))
+            except OSError:
+                pass
+        return res
+
+    merged = {}
+    for res in vlib.parallel_map(do_chunk, list(range(len(chunks))), nproc=nproc):
+        merged.update(res)
+    return [merged[i] for i in range(len(jobs))]
 
 
 def acts_of(recs):
@@ -143,3 +192,280 @@ def write_json(ctx, name, obj):
     with open(p, "w") as f:
         json.dump(obj, f)
     return p
+
+
+# ------------------------------------------------------------------------------------------------ timeline scenarios
+# A scenario (Python side) is a dict with Fractions; scen_json renders it for TimelineRun.tla (rationals as [n, d]),
+# scen_text renders it for the driver. Spec host h (1-based) is driver host h (driver host 0 is the control host on
+# which every actor lives); spec link l is driver link l-1; spec disk d is driver disk d-1; activity ids are 1-based.
+
+def rj(x):
+    x = Fraction(x)
+    return [x.numerator, x.denominator]
+
+
+def profile(pts, period=0, init=0):
+    return {"pts": [(Fraction(t), Fraction(v)) for t, v in pts], "period": Fraction(period), "init": Fraction(init)}
+
+
+def _pj(p):
+    if not p:
+        return {"pts": [], "period": [0, 1], "init": [0, 1]}
+    return {"pts": [{"t": rj(t), "v": rj(v)} for t, v in p["pts"]], "period": rj(p["period"]), "init": rj(p["init"])}
+
+
+def new_host(speeds, cores=1, sprof=None, stprof=None, watts=(), woff=0):
+    return {"speeds": [Fraction(s) for s in speeds], "cores": cores, "sprof": sprof, "stprof": stprof,
+            "watts": [tuple(Fraction(x) for x in w) for w in watts], "woff": Fraction(woff)}
+
+
+def new_link(bw, lat=0, bwprof=None, latprof=None, stprof=None, widle=0, wbusy=0):
+    return {"bw": Fraction(bw), "lat": Fraction(lat), "bwprof": bwprof, "latprof": latprof, "stprof": stprof,
+            "widle": Fraction(widle), "wbusy": Fraction(wbusy)}
+
+
+def new_act(kind, start, amount, host=0, links=(), disk=0, op="read", bound=0, prio=1, threads=1):
+    return {"kind": kind, "start": Fraction(start), "amount": Fraction(amount), "host": host, "links": list(links),
+            "disk": disk, "op": op, "bound": Fraction(bound), "prio": prio, "threads": threads}
+
+
+def new_event(t, op, a, v=0, r=0):
+    return {"t": Fraction(t), "op": op, "a": a, "v": v, "r": Fraction(r)}
+
+
+def new_scen(hosts=(), links=(), disks=(), acts=(), events=(), samples=()):
+    return {"capcomm": False, "hosts": list(hosts), "links": list(links), "disks": list(disks), "acts": list(acts),
+            "events": sorted(events, key=lambda e: e["t"]), "samples": sorted(set(Fraction(s) for s in samples))}
+
+
+def scen_json(sc):
+    return {"capcomm": bool(sc.get("capcomm", False)),
+            "hosts": [{"speeds": [rj(s) for s in h["speeds"]], "cores": h["cores"], "sprof": _pj(h["sprof"]),
+                       "stprof": _pj(h["stprof"]),
+                       "watts": [{"idle": rj(w[0]), "eps": rj(w[1]), "max": rj(w[2])} for w in h["watts"]],
+                       "woff": rj(h["woff"])} for h in sc["hosts"]],
+            "links": [{"bw": rj(l["bw"]), "lat": rj(l["lat"]), "bwprof": _pj(l["bwprof"]), "latprof": _pj(l["latprof"]),
+                       "stprof": _pj(l["stprof"]), "widle": rj(l["widle"]), "wbusy": rj(l["wbusy"])} for l in sc["links"]],
+            "disks": [{"rbw": rj(d["rbw"]), "wbw": rj(d["wbw"])} for d in sc["disks"]],
+            "acts": [{"kind": a["kind"], "start": rj(a["start"]), "amount": rj(a["amount"]), "host": a["host"],
+                      "links": a["links"], "disk": a["disk"], "op": a["op"], "bound": rj(a["bound"]), "prio": a["prio"],
+                      "threads": a["threads"]} for a in sc["acts"]],
+            "events": [{"t": rj(e["t"]), "op": e["op"], "a": e["a"], "v": e["v"], "r": rj(e["r"])} for e in sc["events"]],
+            "samples": [rj(s) for s in sc["samples"]]}
+
+
+def _ptext(kind, idx, what, p):
+    return "%s %d %s %s %d %s" % (kind, idx, what, tok(p["period"]) if p["period"] > 0 else "-1", len(p["pts"]),
+                                  " ".join("%s %s" % (tok(t), tok(v)) for t, v in p["pts"]))
+
+
+def _num(x):
+    x = Fraction(x)
+    return str(x.numerator) if x.denominator == 1 else repr(float(x))
+
+
+def scen_text(sc, observe=False, host_energy=False, link_energy=False):
+    out = []
+    if host_energy:
+        out.append("plugin host_energy")
+    if link_energy:
+        out.append("plugin link_energy")
+    out.append("host ctl 1 1 0x1p0")
+    for i, h in enumerate(sc["hosts"]):
+        out.append("host h%d %d %d %s" % (i + 1, h["cores"], len(h["speeds"]), " ".join(tok(s) for s in h["speeds"])))
+        if h["watts"]:
+            out.append("hprop %d wattage_per_state %s" % (i + 1, ",".join("%s:%s:%s" % tuple(_num(x) for x in w) for w in h["watts"])))
+            out.append("hprop %d wattage_off %s" % (i + 1, _num(h["woff"])))
+        if h["sprof"]:
+            out.append(_ptext("hprofile", i + 1, "speed", h["sprof"]))
+        if h["stprof"]:
+            out.append(_ptext("hprofile", i + 1, "state", h["stprof"]))
+    for i, l in enumerate(sc["links"]):
+        out.append("link l%d %s %s SHARED" % (i + 1, tok(l["bw"]), tok(l["lat"])))
+        if l["widle"] or l["wbusy"]:
+            out.append("lprop %d wattage_range %s:%s" % (i, _num(l["widle"]), _num(l["wbusy"])))
+        for what, key in (("bw", "bwprof"), ("lat", "latprof"), ("state", "stprof")):
+            if l[key]:
+                out.append(_ptext("lprofile", i, what, l[key]))
+    for i, d in enumerate(sc["disks"]):
+        out.append("disk 0 d%d %s %s" % (i + 1, tok(d["rbw"]), tok(d["wbw"])))
+    nh = len(sc["hosts"]) + 1
+    ends = {}
+    for ai, a in enumerate(sc["acts"]):
+        if a["kind"] == "comm":
+            out.append("host ea%d 1 1 0x1p0" % (ai + 1))
+            out.append("host eb%d 1 1 0x1p0" % (ai + 1))
+            ends[ai] = (nh, nh + 1)
+            out.append("route %d %d %d %s" % (nh, nh + 1, len(a["links"]), " ".join(str(l - 1) for l in a["links"])))
+            nh += 2
+    if observe:
+        out.append("observe")
+    for ai, a in enumerate(sc["acts"]):
+        out.append("actor 0")
+        if a["start"] > 0:
+            out.append("until %s" % tok(a["start"]))
+        if a["kind"] == "exec":
+            out.append("exec %d %s %s %d %d %d" % (ai + 1, tok(a["amount"] / a["threads"]),
+                                                 tok(a["bound"]) if a["bound"] > 0 else "0", a["prio"], a["threads"], a["host"]))
+        elif a["kind"] == "comm":
+            out.append("comm %d %d %d %s" % (ai + 1, ends[ai][0], ends[ai][1], tok(a["amount"])))
+        else:
+            out.append("io %d %d %s %s" % (ai + 1, a["disk"] - 1, a["op"], tok(a["amount"])))
+    dates = sorted(set([e["t"] for e in sc["events"]] + list(sc["samples"])))
+    out.append("actor 0")
+    for t in dates:
+        if t > 0:
+            out.append("until %s" % tok(t))
+        for e in sc["events"]:
+            if e["t"] != t:
+                continue
+            if e["op"] == "pstate":
+                out.append("pstate %d %d" % (e["a"], e["v"] - 1))
+            elif e["op"] in ("off", "on"):
+                out.append("%s %d" % (e["op"], e["a"]))
+            elif e["op"] in ("loff", "lon"):
+                out.append("%s %d" % (e["op"], e["a"] - 1))
+            elif e["op"] in ("suspend", "resume"):
+                out.append("%s %d" % (e["op"], e["a"]))
+            elif e["op"] == "setprio":
+                out.append("setprio %d %d" % (e["a"], e["v"]))
+            elif e["op"] == "setbound":
+                out.append("setbound %d %s" % (e["a"], tok(e["r"])))
+        if t in sc["samples"]:
+            out.append("sample s")
+    return "\n".join(out) + "\n"
+
+
+def run_timelines(ctx, scens, timeout=900, tag="tl"):
+    """TLC runs the reference timeline over the scenarios (in chunks: a 32-bit overflow inside one scenario stops the
+    TLC run; the scenarios before it are complete, the offending one is skipped and the run resumes after it).
+    Returns (obs, fin, skipped): obs[i] = list of OBS records of scenario i (plus OBS0 first), fin[i] = FIN record."""
+    obs = [None] * len(scens)
+    fin = [None] * len(scens)
+    skipped = []
+    start = 0
+    rounds = 0
+    while start < len(scens):
+        rounds += 1
+        ids = list(range(start, len(scens)))
+        f = write_json(ctx, "%s_scen_%d.json" % (tag, rounds), [scen_json(scens[i]) for i in ids])
+        r = vlib.tlc(os.path.join(SSPEC, "TimelineRun.tla"), env={"SCEN": f}, workers=1, timeout=timeout)
+        ctx.add_tlc(r)
+        got_obs = {}
+        got_fin = {}
+        seen = set()
+        for line in r.prints:
+            if line in seen:
+                continue
+            seen.add(line)
+            m = re.match(r'<<"(OBS0|OBS|FIN)", (\d+), ', line)
+            if not m:
+                continue
+            v = vlib.parse_tla_value(line)
+            rec = json.loads(v[2])
+            rec["_kind"] = v[0]
+            if v[0] == "FIN":
+                got_fin[v[1] - 1] = rec
+            else:
+                got_obs.setdefault(v[1] - 1, []).append(rec)
+        for k, rec in got_fin.items():
+            fin[ids[k]] = rec
+            obs[ids[k]] = got_obs.get(k, [])
+        if r.ok:
+            break
+        if r.status == "eval" and "Overflow when computing" in r.out:
+            done = len(got_fin)
+            skipped.append(ids[done])
+            start = ids[done] + 1
+            continue
+        raise vlib.InfraError("the timeline specification failed on its own (%s %s)\n%s" % (r.status, r.what[-800:], r.out[-3000:]))
+    return obs, fin, skipped
+
+
+def near(t, T):
+    """double date t matches exact date T"""
+    return close(t, T, rel=REL_TOL, absolute=PREC_TIMING / 1000)
+
+
+def find_obs(obs_list, t):
+    for o in obs_list:
+        if near(t, frac(o["t"])):
+            return o
+    return None
+
+
+# ------------------------------------------------------------------------------------------------ comparison
+FAILED_STATES = ("host_failure", "network_failure", "storage_failure", "canceled")
+
+
+def compare_acts(sc, fin, recs):
+    """status and finish date of every activity: implementation (act records) vs reference timeline (FIN record)"""
+    bad = []
+    acts = acts_of(recs)
+    end = end_of(recs)
+    if end.get("how") != "normal":
+        return ["run ended with %s" % json.dumps(end)]
+    for i, a in enumerate(sc["acts"]):
+        want, wfin = fin["ast"][i], frac(fin["fin"][i])
+        got = acts.get(i + 1)
+        if got is None:
+            bad.append("activity %d (%s): no completion record, reference says %s at %s" % (i + 1, a["kind"], want, wfin))
+            continue
+        if want == "done":
+            if got["state"] != "done" or not near(got["finish"], wfin):
+                bad.append("activity %d (%s): %s at %.17g, reference: done at %s = %.17g" %
+                           (i + 1, a["kind"], got["state"], got["finish"], wfin, float(wfin)))
+        elif want == "failed":
+            if got["state"] not in FAILED_STATES or not near(got["clock"], wfin):
+                bad.append("activity %d (%s): %s at %.17g, reference: failed at %s" % (i + 1, a["kind"], got["state"], got["clock"], wfin))
+        else:
+            bad.append("activity %d: reference status %s at the end of the scenario" % (i + 1, want))
+    return bad
+
+
+def compare_samples(sc, obs, recs, energy=False, values=True):
+    """sampled resource values / energies of the implementation vs the reference state of the same date"""
+    bad = []
+    n = 0
+    nh, nl = len(sc["hosts"]), len(sc["links"])
+    for r in recs:
+        if r.get("e") != "sample":
+            continue
+        o = find_obs(obs, r["t"])
+        if o is None:
+            bad.append("sample at %.17g: no reference state at that date" % r["t"])
+            continue
+        n += 1
+        v = o["val"]
+        if values:
+            for h in range(nh):
+                if bool(r["hon"][h + 1]) != bool(v["hon"][h]):
+                    bad.append("t=%s host %d is_on=%s, reference %s" % (r["t"], h + 1, r["hon"][h + 1], v["hon"][h]))
+                if not close(r["speed"][h + 1], frac(v["peak"][h])) or not close(r["avail"][h + 1], frac(v["scale"][h])):
+                    bad.append("t=%s host %d speed=%.17g avail=%.17g, reference %s x %s" %
+                               (r["t"], h + 1, r["speed"][h + 1], r["avail"][h + 1], frac(v["peak"][h]), frac(v["scale"][h])))
+                if r["pstate"][h + 1] != v["pst"][h] - 1:
+                    bad.append("t=%s host %d pstate=%d, reference %d" % (r["t"], h + 1, r["pstate"][h + 1], v["pst"][h] - 1))
+            for l in range(nl):
+                if bool(r["lon"][l]) != bool(v["lon"][l]):
+                    bad.append("t=%s link %d is_on=%s, reference %s" % (r["t"], l + 1, r["lon"][l], v["lon"][l]))
+                if not close(r["bw"][l], frac(v["bw"][l])) or not close(r["lat"][l], frac(v["lat"][l])):
+                    bad.append("t=%s link %d bandwidth=%.17g latency=%.17g, reference %s / %s" %
+                               (r["t"], l + 1, r["bw"][l], r["lat"][l], frac(v["bw"][l]), frac(v["lat"][l])))
+        if energy and "he" in o:
+            if "henergy" in r:
+                for h in range(nh):
+                    if sc["hosts"][h]["watts"] and not close(r["henergy"][h + 1], frac(o["he"][h]), absolute=Fraction(1, 10 ** 9)):
+                        bad.append("t=%s host %d consumed energy %.17g J, reference %s = %.17g J" %
+                                   (r["t"], h + 1, r["henergy"][h + 1], frac(o["he"][h]), float(frac(o["he"][h]))))
+            if "lenergy" in r:
+                for l in range(nl):
+                    if not close(r["lenergy"][l], frac(o["le"][l]), absolute=Fraction(1, 10 ** 9)):
+                        bad.append("t=%s link %d consumed energy %.17g J, reference %s = %.17g J" %
+                                   (r["t"], l + 1, r["lenergy"][l], frac(o["le"][l]), float(frac(o["le"][l]))))
+    return bad, n
+
+
+def expand_obs(obs):
+    """OBS0 (date 0) + OBS records; OBS0 carries only sampled values"""
+    return obs
